@@ -167,7 +167,10 @@ struct World {
   uint64_t env_decision() { return mix64(envStream, (uint64_t(uint32_t(opStableId)) << 20) ^ (envEventIdx++)); }
 
   void violate(int kind, PropMask props, const std::string &what) {
-    if (viol.set()) return;
+    if (viol.set()) {
+      if (viol.opIndex == opIndex && kind != VK_INTERNAL) viol.props |= props;  // a second monitor firing on the same step implicates its property too
+      return;
+    }
     ++harnessDepth;
     viol.kind = kind; viol.props = props; viol.what = what; viol.opIndex = opIndex; viol.opKind = opKind;
     --harnessDepth;
